@@ -144,7 +144,9 @@ fn matrix(case: &Case) -> Option<Matrix4<f32>> {
     };
     let t = |k: usize| case.mat[(12 + k) % case.mat.len()] as f32 / 4.0;
     let w = if case.xform == 2 {
-        [0.5, 2.0, 4.0, 0.25][case.mat[0].rem_euclid(4) as usize]
+        // also homogeneous coordinates far below f32::EPSILON (a scale kept
+        // in the last entry): dividing by a power of two is still exact
+        [0.5, 2.0, 4.0, 0.25, 5.9604645e-8, 9.313226e-10][case.mat[0].rem_euclid(6) as usize]
     } else {
         1.0
     };
